@@ -16,8 +16,9 @@ CLAIMED = {
              "every execution is one event (verdict shape, exit status, signal, panic marker, CPU time, size) that "
              "Trace_Pipeline must accept; crashes, stack overflows and hangs of a worker are attributed to the case by the "
              "supervisor and reported with the rendered input.",
-        note="Soups are exhaustive to length 2 (quick) / 3 (thorough) only; mutants are random (seeded). One finding is recorded "
-             "as open: path enumeration in cycle detection is exponential on dense cyclic graphs (pinned by an existing test).",
+        note="Soups are exhaustive to length 2 (quick) / 3 (thorough) only; mutants are random (seeded). Two findings are recorded "
+             "as open: path enumeration in cycle detection is exponential on dense cyclic graphs (pinned by an existing test), and "
+             "the validators walk doubling alias chains as trees (the walk is what the visitor promises).",
         design_ref="5 (C01), 4 (Pipeline)"),
     "C08": dict(
         category="model_checking",
